@@ -15,6 +15,18 @@ CHECKS = {
              "through SSI_fast/SSI/SSI_poles on exact rank-2m Hankel products; a monitor compares the order-2m column (count, "
              "conjugate pairing, f, xi, MAC, normalisation) and mpe() with the generating system at eps*cond tolerance.",
         ref="3/C01"),
+    "C02": dict(
+        technique="runtime monitoring: ground-truth oracle on merge_mode_shapes / MultiSetup_PoSER.merge_results outputs",
+        text="Exploration: random global mode-shape matrices are restricted, permuted and re-scaled per setup and fed to merge_mode_shapes "
+             "and to MultiSetup_PoSER (prescribed results, and real SSIcov runs on noise-free decays); monitors compare every merged row with "
+             "c_1k*G, the row order with flatten_sns_names, and Fn/Xi statistics with statistics.fmean/pstdev.",
+        ref="3/C02"),
+    "C03": dict(
+        technique="runtime monitoring: ground-truth oracle on PreGER SSI pole tables + postcondition on every pre_multisetup call (exhaustive layouts)",
+        text="Exploration: noise-free multi-setup decays of known global systems through MultiSetup_PreGER+SSIcov_MS/SSIdat_MS and "
+             "SSI_multi_setup, order-2m column compared with the system and between gain assignments; the reference/roving split is checked "
+             "for every channel count 2..6 and every ordered proper reference subset on the direct call and on every call the setup object makes.",
+        ref="3/C03"),
 }
 
 PENDING_REASON = "check not built yet in this session (work in progress; the design in DESIGN.md section 3 applies)"
